@@ -112,6 +112,7 @@ def run(check, prog):
     r9_updated_support(check, prog)
     r10_ufunc_protocol(check, prog)
     r10b_operand_order(check, prog)
+    r10c_zero_d_routing(check, prog)
     r11_shared_base_samples(check, prog)
     r12_complex_prior(check, prog)
     r13_unsupported_operands(check, prog)
@@ -775,6 +776,11 @@ def r6_arithmetic(check, prog, canon):
                 tgt = show(t[2][1])
                 if kind == 'array':
                     return 'ndarray' in tgt
+                if kind == 'zero-d':
+                    # a 0-d array; what its .item() is an instance of is a number
+                    if t[2][0] == v:
+                        return 'ndarray' in tgt
+                    return any(k in tgt for k in ('Number', 'Real', 'float', 'int'))
                 if kind in ('number', 'zero', 'one'):
                     return any(k in tgt for k in ('Number', 'Real', 'Prior', 'float',
                                                   'int', 'Complex'))
@@ -784,6 +790,9 @@ def r6_arithmetic(check, prog, canon):
                     return kind == 'zero'
                 if t[3] == num(1):
                     return kind == 'one'
+            if t[0] == 'cmp' and t[1] == '==' and t[2] == ('attr', v, 'ndim') and \
+                    t[3] == num(0):
+                return kind == 'zero-d'
             return None
         return decide
     # inline the primitive operators so that e.g. __sub__ = self + (-value)
@@ -840,6 +849,32 @@ def r6_arithmetic(check, prog, canon):
         check.require(ok, 'R6-operator-denotation', 'Prior.%s(array)' % name,
                       'prior %s array = array of (prior %s element)' % (op, op),
                       prog.loc(owner, fd), fail_detail='returns %s' % show(r)[:120])
+    # a 0-d array (the .values of a reduction) is one number: it takes the path of
+    # numbers -- with its identities and refusals -- not the element-wise one
+    item = intern(('call', ('attr', v, 'item'), (), ()))
+    for name, op in (('__add__', '+'), ('__mul__', '*')):
+        it, res, owner, fd = method(prog, cq, name, decide=scenario('zero-d'), depth=0)
+        vals = [o.value for o in res.outcomes if o.value is not None]
+        bare = False
+        for t in vals + [c_ for o in res.outcomes for c_, _ in o.cond]:
+            for x in subterms(t):
+                if x[0] in ('comp', 'loop') and v in set(subterms(x)):
+                    bare = True           # iterated over
+                if x[0] == 'bin' and v in (x[2], x[3]):
+                    bare = True           # combined as it is
+                if x[0] == 'cmp' and x[2] == v and x[1] in ('==', '!='):
+                    bare = True
+        uses_item = any(item in set(subterms(t)) for t in vals +
+                        [c_ for o in res.outcomes for c_, _ in o.cond])
+        check.require(uses_item and not bare, 'R6-zero-d-operand',
+                      'Prior.%s(0-d array)' % name,
+                      'a 0-d array operand is unwrapped to the number it holds before '
+                      'the type dispatch', prog.loc(owner, fd),
+                      fail_detail='the 0-d array is %s: `prior %s np.array(0.)` fails '
+                      'with "iteration over a 0-d array" and `np.array(0.) %s prior` '
+                      'builds a derived prior where the number 0 %s' % (
+                          'iterated / combined as it is' if bare else 'not unwrapped',
+                          op, op, 'is refused' if op == '*' else 'gives the prior'))
     # __array_ufunc__
     it, res, owner, fd = method(prog, cq, '__array_ufunc__', depth=1)
     normal = res.returns
@@ -1130,6 +1165,43 @@ def r10_ufunc_protocol(check, prog):
                   'under [%s]: np.float64(0) * prior is a prior (it should raise), '
                   'np.float64(1) * prior and np.float64(0) + prior are new objects (they '
                   'should be the prior itself)' % '; '.join(bad)[:160])
+
+
+def r10c_zero_d_routing(check, prog):
+    """R10c: an operand is kept off the operators' route (and handed to NumPy's
+    element-wise semantics) only if it is an array *with axes*: a 0-d array -- the
+    .values of a reduction -- is one number, and `np.array(0.) * prior` must be
+    refused like `0 * prior`.  Rule: every test in __array_ufunc__ that asks whether
+    an operand is an ndarray in order to choose the route also asks for its rank."""
+    q = P + 'Prior.__array_ufunc__'
+    if not prog.has_func(q):
+        return
+    fd = prog.func(q)
+    loc = prog.loc(q, fd)
+    it = Interp(prog, max_depth=0, inline_new=False)
+    res = it.analyze(q)
+    tests = set()
+    for o in res.outcomes:
+        for ct, pol in o.cond:
+            for x in subterms(ct):
+                if x[0] == 'comp' and any(
+                        y[0] == 'call' and y[1] == 'isinstance' and
+                        show(y[2][1]) in ('numpy.ndarray',) for y in subterms(x[2])):
+                    tests.add(x)
+    n = 0
+    for x in sorted(tests, key=show):
+        # (the type check of the operands -- isinstance(arg, (Number, Prior,
+        # np.ndarray, ...)) -- names ndarray among others: not a routing test)
+        n += 1
+        ranked = any(y[0] == 'attr' and y[2] in ('ndim', 'shape', 'size')
+                     for y in subterms(x[2]))
+        check.require(ranked, 'R10-zero-d-routing', 'Prior.__array_ufunc__ routing test',
+                      'an ndarray operand is sent the element-wise way only if it has '
+                      'axes (ndim > 0)', loc,
+                      fail_detail='%s: a 0-d array counts as an array -- np.array(0.) * '
+                      'prior builds a derived prior with guess 0 where 0 * prior raises, '
+                      'np.array(1.) * prior is a new object' % show(x)[:100])
+    check.note('R10c routing tests on ndarray operands', str(n))
 
 
 def r10b_operand_order(check, prog):
